@@ -84,6 +84,7 @@ pub enum MonorailError {
     Server(server::ServerError),
 }
 //!end
+#[verifier::external] impl std::fmt::Debug for MonorailError { fn fmt(&self, f: &mut std::fmt::Formatter<'_>) -> std::fmt::Result { Ok(()) } }
 // conversions used by `?` — mirror core/error.rs (ASSUMED: not extracted)
 impl From<graph_err::GraphError> for MonorailError { #[verifier::external_body] fn from(error: graph_err::GraphError) -> (r: Self) ensures r is Graph { MonorailError::Graph(error) } }
 impl From<String> for MonorailError { #[verifier::external_body] fn from(error: String) -> (r: Self) ensures r is Generic { MonorailError::Generic(error) } }
@@ -229,6 +230,7 @@ pub struct World {
     pub ghost pointer_saved: Seq<int>,           // ids written to the run pointer, in order
     // lock (unit cli)
     pub ghost lock_held: bool,
+    pub ghost effects: nat,                      // number of mutating application entry points entered
 }
 pub open spec fn flat(b: Seq<Vec<u8>>) -> Seq<u8> decreases b.len() { if b.len() == 0 { Seq::empty() } else { flat(b.drop_last()) + b.last()@ } }
 pub proof fn lemma_flat_push(b: Seq<Vec<u8>>, x: Vec<u8>) ensures flat(b.push(x)) == flat(b) + x@ { assert(b.push(x).drop_last() =~= b); }
